@@ -61,6 +61,7 @@ structure WInv (e : EWork) : Prop where
   wfR : IdWF liveRp (·.lineId) e.f.replace
   nodup : (liveIds liveRp (·.lineId) e.f.replace).Nodup
   lt : ∀ i ∈ liveIds liveRp (·.lineId) e.f.replace, i < e.next
+  pos : 0 < e.next
 
 theorem TInv.of_sublist {e e' : EFile} (h : TInv e) (wfX : IdWF liveX (·.lineId) e'.f.exclude)
     (wfR : IdWF liveRp (·.lineId) e'.f.replace) (wfT : IdWF liveT (·.lineId) e'.f.tool)
